@@ -7,5 +7,17 @@ t = "\n".join(l for l in t.splitlines() if not l.startswith("WARNING"))
 p = os.path.join(ROOT, "DESIGN.md")
 s = open(p).read()
 s = re.sub(r"<!-- SEEDED-TABLE-BEGIN -->.*?<!-- SEEDED-TABLE-END -->", "<!-- SEEDED-TABLE-BEGIN -->\n" + t + "\n<!-- SEEDED-TABLE-END -->", s, flags=re.S)
+# harmless refactorings (seeded/harmless/*/meta.json): every row must be silent
+import glob, json
+rows = []
+for f in sorted(glob.glob(os.path.join(ROOT, "seeded", "harmless", "*", "meta.json"))):
+    m = json.load(open(f))
+    d = os.path.join(os.path.dirname(f), "description.txt")
+    desc = " ".join(open(d).read().split())[:170].replace("|", "/") if os.path.exists(d) else ""
+    ck = "; ".join(f"{k}: exit {v['exit']}, {len(v['violations'])} violation(s)" + (f", {v['undecided']} undecided" if v.get("undecided") else "") for k, v in m["checks"].items())
+    rows.append(f"| {m['id']} | {desc} | {'yes' if m.get('baseline_ok') else m.get('baseline', '')[:30]} | {ck} | {'silent' if m['silent'] else '**ALARM**'} |")
+h = "| patch | refactoring | pinned suite passes | check(s) run on the patched tree | result |\n|---|---|---|---|---|\n" + "\n".join(rows)
+h += f"\n\n{sum(1 for r in rows if r.endswith('| silent |'))} of {len(rows)} behaviour-preserving refactorings leave the check of their property silent."
+s = re.sub(r"<!-- HARMLESS-TABLE-BEGIN -->.*?<!-- HARMLESS-TABLE-END -->", lambda _: "<!-- HARMLESS-TABLE-BEGIN -->\n" + h + "\n<!-- HARMLESS-TABLE-END -->", s, flags=re.S)
 open(p, "w").write(s)
-print("table updated:", t.count("\n"), "lines")
+print("table updated:", t.count("\n"), "lines;", len(rows), "harmless rows")
